@@ -3,7 +3,11 @@
 use crate::ctx::{Check, Ctx};
 
 pub mod c01;
+pub mod c02;
 pub mod c03;
+pub mod c04;
+pub mod c20;
+pub mod wvr;
 pub mod c05;
 pub mod scripted;
 
@@ -42,14 +46,17 @@ pub const E1_STUB: &[&str] = &[
 ];
 
 pub fn all() -> Vec<&'static str> {
-  vec!["C01", "C03", "C05"]
+  vec!["C01", "C02", "C03", "C04", "C05", "C20"]
 }
 
 pub fn spec(id: &str) -> Option<Spec> {
   match id {
     "C01" => Some(c01::spec()),
+    "C02" => Some(c02::spec()),
     "C03" => Some(c03::spec()),
+    "C04" => Some(c04::spec()),
     "C05" => Some(c05::spec()),
+    "C20" => Some(c20::spec()),
     _ => None,
   }
 }
@@ -57,8 +64,11 @@ pub fn spec(id: &str) -> Option<Spec> {
 pub fn run(id: &str, tier: &str, ctx: &mut Ctx) -> Check {
   match id {
     "C01" => c01::run(tier, ctx),
+    "C02" => c02::run(tier, ctx),
     "C03" => c03::run(tier, ctx),
+    "C04" => c04::run(tier, ctx),
     "C05" => c05::run(tier, ctx),
+    "C20" => c20::run(tier, ctx),
     _ => panic!("unknown property {id}"),
   }
 }
